@@ -77,6 +77,8 @@ static void xe_special(const xv_req *r, xv_resp *o, xrl_error **e) {
   if (c) Crystal_Free(c);
 }
 
+static const int xe_errnos[8] = { 0, ERANGE, ENOMEM, EDOM, 0, EINVAL, ENOENT, EINTR };
+
 static int xe_main(int argc, char **argv) {
   FILE *f; long n, k; char *sbuf = NULL; long slen = 0; int noslot;
   xv_req *rq; xv_resp *rs;
@@ -96,6 +98,7 @@ static int xe_main(int argc, char **argv) {
   for (k = 0; k < n; k++) {
     xrl_error *e = NULL; const xv_req *r = &rq[k]; xv_resp *o = &rs[k];
     o->msg = -1;
+    errno = xe_errnos[k & 7];      /* whatever an earlier call of the process may have left behind: no query may depend on it */
     if (r->fn >= 0 && r->fn < XV_NFN) o->v[0] = xv_call(r->fn, r->i, r->d, xe_s(r->s), noslot ? NULL : &e);
     else if (r->fn >= 1000 && r->fn < XS_END) xe_special(r, o, noslot ? NULL : &e);
     else o->status = 16;
